@@ -6,7 +6,7 @@ from io import BytesIO
 
 from hypothesis import strategies as st
 
-from vlib import build, snapshot
+from vlib import iovariants, build, snapshot
 from vlib.harness import PropertyViolation, run_property
 
 PROPERTY_ID = "C02"
@@ -24,7 +24,7 @@ ASSUMPTIONS = [
     "x, y, layer and visualization are not part of stand-alone synth files (documented) and are excluded from the synth-context comparison",
 ]
 REQUIRED_LABELS = {
-    "quick": ["neg_min_ctl_at_min", "ctl_at_range_end", "dependent_ctl_set", "payload_nondefault", "options_set", "cmid_set", "empty_synth", "second_generation", "earlier_copy_edited_then_copied_again"],
+    "quick": ["neg_min_ctl_at_min", "ctl_at_range_end", "dependent_ctl_set", "payload_nondefault", "options_set", "cmid_set", "empty_synth", "second_generation", "earlier_copy_edited_then_copied_again", "metamodule_nested_2_levels"],
     "thorough": ["neg_min_ctl_at_min", "ctl_at_range_end", "dependent_ctl_set", "unit_changed", "payload_nondefault", "options_set", "cmid_set", "empty_synth", "sampler_with_samples", "sampler_with_effect", "metamodule_user_ctls", "name_straddles_32"]
     + ["type_" + t for t in build.attachable_types()],
 }
@@ -67,6 +67,8 @@ def check_module_spec(ctx, ms):
         raise PropertyViolation("C02.synth.type", "%s came back as %s" % (tname, type(back.module).__name__))
     s1 = snapshot.snap_module(back.module, in_project=False)
     expect_equal(s0, s1, "C02.synth.roundtrip", "%s synth round trip" % tname)
+    iovariants.writers_agree(Synth(mod), data1, "C02")
+    iovariants.loaders_agree(data1, s0, lambda o: snapshot.snap_module(o.module, in_project=False), "C02", ".sunsynth")
     # (b) clone
     c = mod.clone()
     if type(c) is not type(mod) or c is mod:
@@ -78,7 +80,14 @@ def check_module_spec(ctx, ms):
     # original, whatever happened to the earlier ones
     changed = build.scribble_nested(c, 1) + build.scribble_nested(back.module, 2)
     if ms.get("then"):
-        build.apply_spec(c, dict(ms["then"], _ctor_as_sets=True))
+        # the copies (a clone and a loaded module - objects that came out of the reader) are edited
+        # through the API and must save what they now hold
+        for how, target in (("clone", c), ("loaded", back.module)):
+            build.apply_spec(target, dict(ms["then"], _ctor_as_sets=True))
+            g0 = snapshot.snap_module(target, in_project=False)
+            again = read_sunvox_file(BytesIO(Synth(target).read())).module
+            expect_equal(g0, snapshot.snap_module(again, in_project=False), "C02.second_generation.on_" + how, "%s: %s copy edited and saved" % (tname, how))
+            expect_equal(g0, snapshot.snap_module(target.clone(), in_project=False), "C02.second_generation.on_%s.clone" % how, "%s: %s copy edited and cloned" % (tname, how))
         changed += 1
     if changed:
         ctx.label("earlier_copy_edited_then_copied_again")
@@ -165,6 +174,13 @@ def run_shard(ctx, desc):
             ctx.sample(ms)
 
     depth = 1 if ctx.tier == "quick" else 2
+
+    def body_deep(ms):
+        body(ms)
+        ctx.label("metamodule_nested_%d_levels" % min(3, build.meta_depth(ms)))
+
+    if not run_property(ctx, build.nested_meta(max_levels=4), body_deep, 4 if ctx.tier == "quick" else 30, tag="deep", bucket="module"):
+        return
     # guaranteed sweep of this shard's share of the 42 types, then the random draw
     for t in desc["sweep"]:
         if not run_property(ctx, spec_with_followup(in_project=True, depth=depth, tname=t, dense=True), body, 12 if ctx.tier == "quick" else 60, tag="sweep_" + t, bucket="module"):
